@@ -31,6 +31,9 @@ TGVerdict == /\ Ev.ev = "gverdict"
                 /\ (gv = "must_reject" => ~Ev.accepted /\ Ev.in_decl)
                 /\ (gv = "must_accept" /\ Verdict(D(Ev)) = "accept" => Ev.accepted)
                 /\ (gv = "must_accept" /\ Verdict(D(Ev)) = "reject" => ~Ev.accepted)
+                (* in ANY item order: an attribute whose items are all well formed can only mean what they say, and a
+                   declaration that means something the layout rule forbids must not compile *)
+                /\ (MeaningDefined(D(Ev).gram) /\ Verdict(D(Ev)) = "reject" => ~Ev.accepted)
 (* C10 *)
 TEnumVerdict == /\ Ev.ev = "everdict"
                 /\ Ev.accepted <=> EnumValid(D(Ev))
